@@ -317,6 +317,14 @@ def correspond(ck, traces, tag):
         logs += logs2
     res = [rmap.get(x) for x in terms]
     stats["coq_terms"] = len(uniq)
+    # the generated case files of this run are not needed any more (a failing one is quoted in the replay file)
+    import glob
+    for f in glob.glob(os.path.join(vlib.COQ, "cases", "%s_%d_*.v" % (tag, os.getpid()))) + \
+            glob.glob(os.path.join(vlib.COQ, "cases", "%sr_%d_*.v" % (tag, os.getpid()))):
+        try:
+            os.remove(f)
+        except OSError:
+            pass
     bad = {}
     okmain = {}
     for (t, mp, lat), r in zip(metas, res):
@@ -432,9 +440,9 @@ def explore_opts(args):
 
 DEADLINES = ("-5", "15", "55", "1000005")
 
-# n = 2 scenarios small enough for an unbounded (exhaustive) DFS in the thorough tier; the rest of n = 2 is explored
-# with a preemption bound (stated in the evidence)
-N2_FULL = ("wf/n2/d15/l0", "w/n2/d-5/l0", "wu/n2/d15/l1", "wf/n2/d-5/l2")
+# n = 2 scenarios small enough for an unbounded (exhaustive) DFS in the thorough tier (3.8 M and 12.3 M executions); the
+# other n = 2 scenarios have > 60 M interleavings and are explored with a preemption bound (stated in the evidence)
+N2_FULL = ("w/n2/d-5/l0", "wi/n2/d-5/l0", "wf/n2/d15/l0", "wfi/n2/d15/l0")
 
 
 def plan(ck):
@@ -473,8 +481,8 @@ def main(ck):
         "FIBER backend: sequentially consistent, switches only at the wrapped yaclib_std operations (memory-order effects are C04's subject)",
         "the condition variable and mutex are the fiber backend's (C18's subject); WaitEv models them as lock + flag + park/notify, with the "
         "two condvar-internal transitions (predicate check/park, timer expiry) inferred by the trace mapping",
-        "virtual time: the scheduler's clock (10 ns per fiber resume); deadlines kept off the 10 ns grid because Scheduler::SleepPreemptive "
-        "mishandles a deadline equal to the current time (fault layer, reported to C18)",
+        "virtual time: the scheduler's clock (10 ns per fiber resume); deadlines are off the 10 ns grid (chosen while "
+        "Scheduler::SleepPreemptive still mishandled a deadline equal to the current time; fixed in /repo by 8621598, C18)",
         "shared futures: only the waiter is queued on the shared word during the call, so the word behaves as Empty/callback/Result "
         "(the shared stack discipline itself is C06's subject); their later consumers are checked by the oracle only",
     ]
@@ -508,6 +516,14 @@ def main(ck):
     ck.cov["scenarios"] = len(heads)
     ck.cov["exhaustive"] = bool(batches) and all(x["exhaustive"] for x in batches)
     ck.cov["exhaustive_part"] = "; ".join(x["batch"] for x in batches if x["exhaustive"]) or "none"
+    # a scenario explored by two batches (bounded and unbounded DFS) contributes each distinct trace once
+    seen, uniq_rows = set(), []
+    for t in all_rows:
+        k = (t["scenario"], t["trace"], t["fail"])
+        if k not in seen:
+            seen.add(k)
+            uniq_rows.append(t)
+    all_rows = uniq_rows
     validated, nontriv, bad, stats = correspond(ck, all_rows, "c11")
     # ---- the same scenarios under AddressSanitizer (stack-use-after-return), thorough tier
     if ck.tier == "thorough":
